@@ -185,6 +185,10 @@ class C02:
             okeys = make_keys(S, other, 1)
             reps = 2 if tier == "quick" else 4
             flows = honest_sigs(S, suite, keys, [(L, "rand") for L in Ls for _ in range(reps)])
+            # one signature over a vector holding a message of MORE than 65535 octets (the length fields of expand_message have 16 bits) and one of exactly 65535
+            sk_, pk_ = keys[0]; big_ = [rb(rng, 65536 + rng.randrange(5000)), b"other", rb(rng, 65535)]
+            rbig = S.run(["sign %s %s %s %s %s" % (suite, tb(sk_), tb(pk_), "N", tl(big_))], expect="ok", label="sign(large message)")[0]
+            if rbig.status == "OK": flows.append({"suite": suite, "sk": sk_, "pk": pk_, "header": None, "msgs": big_, "sig": rbig.b(0)})
             lines = []; labels = []
             for f in flows:
                 base = (suite, tb(f["pk"]), tb(f["sig"]))
@@ -243,7 +247,8 @@ class C03:
     def generate(S, tier):
         rng = S.rng
         exh = 5 if tier == "quick" else 8
-        big = [10, 17, 33, 64] if tier == "quick" else [10, 16, 17, 31, 32, 33, 64, 100, 128, 300]
+        # 258: more than 255 undisclosed messages (a response count kept in one octet would stop there)
+        big = [10, 17, 33, 64, 258] if tier == "quick" else [10, 16, 17, 31, 32, 33, 64, 100, 128, 258, 300, 515]
         nrand = 4 if tier == "quick" else 20
         stats = {"exhaustive_L_up_to": exh, "sampled_L": big, "subsets": 0, "U_hist": {}}
         for suite in SUITES:
@@ -254,6 +259,8 @@ class C03:
                 L = len(f["msgs"])
                 if L <= exh:
                     subs = list(all_subsets(L))
+                elif L > 200:
+                    subs = [[], [0, L - 1], list(range(L - 256)), list(range(L - 255))]      # U = L, L - 2, 256, 255
                 else:
                     subs = [[], list(range(L)), [0], [L - 1]] + [sorted(rng.sample(range(L), rng.randrange(L + 1))) for _ in range(nrand)]
                 for D in subs:
@@ -426,6 +433,10 @@ class C04:
                 add(pv_line(p, proof=pr[:-32]), "truncate-scalar")
                 add(pv_line(p, proof=pr + pyc.sc(rng.randrange(pyc.R))), "extend-scalar")
                 add(pv_line(p, proof=pr[:240] + pyc.sc(rng.randrange(pyc.R)) + pr[240:]), "insert-scalar")
+                # 32-octet blocks that are NOT canonical scalars (r, r + 1, ff..ff) inserted at 32-aligned offsets from the first response scalar to the end
+                for blk in (pyc.R.to_bytes(32, "big"), (pyc.R + 1).to_bytes(32, "big"), b"\xff" * 32):
+                    for off in sorted({144, 240, len(pr) - 32, len(pr)}):
+                        add(pv_line(p, proof=pr[:off] + blk + pr[off:]), "insert-noncanonical-block")
                 # shifting L by an index beyond range
                 add(pv_line(p, D=D + [L + 5], dmsgs=dm + [b""]), "index-out-of-range")
                 # exactly ONE of the two lists supplied (the other absent): a claimed message without a position, a position without a message
@@ -541,7 +552,8 @@ class C05:
         small = 2 if tier == "quick" else 3
         shapes = [(L, M, "rand") for L in range(small + 1) for M in range(small + 1)]
         shapes += [(0, None, "rand"), (2, None, None), (5, None, b""), (2, "absent", "rand"), (0, "absent", None)]
-        shapes += [(5, 4, "rand"), (10, 1, "rand"), (1, 10, "rand")] + ([(17, 17, "rand"), (33, 8, "rand"), (64, 64, "rand")] if tier != "quick" else [])
+        # signer-message counts on both sides of 16 and 32 (a multi-scalar fast path switched on by the count would sit there)
+        shapes += [(5, 4, "rand"), (10, 1, "rand"), (1, 10, "rand"), (15, 1, "rand"), (16, 1, "rand"), (17, None, "rand"), (33, 0, "rand")] + ([(17, 17, "rand"), (31, 2, "rand"), (32, 2, "rand"), (33, 8, "rand"), (64, 64, "rand"), (65, 1, "rand"), (129, 3, "rand")] if tier != "quick" else [])
         stats = {"shapes": len(shapes), "pairs": 0}
         for suite in SUITES:
             keys = make_keys(S, suite, 3)
@@ -644,6 +656,14 @@ class C06:
                 add(bv_line(f, suite=other), "bv:cross-suite")
                 if f["msgs"] and f["cm"]:
                     add(bv_line(f, msgs=f["msgs"] + f["cm"][:1], cm=f["cm"][1:]), "bv:moved-boundary")
+                # committed messages claimed WITHOUT the blinding factor (absent blind): never the committed ones' signature
+                if f["cm"]:
+                    add(bv_line(f, blind=None, cm=[]), "bv:blind-absent-no-committed"); add(bv_line(f, blind=None, cm=None), "bv:blind-absent-no-committed")
+            # signatures issued WITHOUT a commitment: they verify with nothing committed and no blind, never with a committed list
+            for f0 in blind_flows(S, suite, keys, [(2, None, "rand"), (0, None, None)], label="triv:blind-no-commitment"):
+                for cm_ in ([b"never committed"], [b"", b"x"], [b""]):
+                    for bl_ in (None, bytes(31) + b"\1"):
+                        add(bv_line(f0, cm=cm_, blind=bl_), "bv:no-commitment-signature-with-committed-list")
             S.run(lines, expect="err", label=labels)
             # blind proofs
             tr = []
